@@ -120,6 +120,9 @@ def expand(ctx: Ctx, pid: str, fam: list[dict], rng: random.Random) -> tuple[lis
                  + pick(lambda d: len(d["phases"]) == 4, nb // 5 + 1)
                  + pick(lambda d: d["phases"] == ["stateful"], nb // 5 + 1))
         recipe = {"stop": "all", "ctrlc": "all", "faults": 2 if quick else 6}
+        # transient internal errors inside stateful steps (status consistency between scenario, suite and phase)
+        bases = bases + [{"ops": ["ok"], "links": lk, "phases": ["stateful"], "workers": 1, "max_failures": 0, "cof": False,
+                          "unique": False, "mf_fault": occ} for lk in ("ok", "bad") for occ in ((1, 2, 3) if quick else (1, 2, 3, 4, 5, 6, 8))]
     elif pid == "C05":
         nb = 36 if quick else 400
         bases = (pick(lambda d: any(b in ("bad", "neterr", "invalid") for b in d["ops"]) and d["max_failures"] == 0, nb // 2)
@@ -184,9 +187,15 @@ def variants(base: dict, ref: dict, recipe: dict, rng: random.Random) -> list[di
 
 def _run_sched(item: dict) -> dict:
     from . import sched
-    from .engine_driver import run_one
+    from .engine_driver import StaleReadAttack, run_one
 
     try:
+        if item.get("attack"):
+            ctrl = StaleReadAttack(item["attack"])
+            run = run_one(item["desc"], controller=ctrl)
+            run["origin"] = item["origin"]
+            run["hdr"]["followed"] = ctrl.held
+            return run
         ctrl = sched.Scheduler([tuple(x) for x in item["steps"]], fault=item["desc"].get("fault"))
         run = run_one(item["desc"], controller=ctrl)
         run["origin"] = item["origin"]
@@ -225,6 +234,14 @@ def schedule_items(ctx: Ctx, n_sim: int) -> tuple[list[dict], dict]:
             items.append({"steps": steps, "origin": "counterexample:" + cfg,
                           "desc": {"ops": ["ok"], "links": links, "phases": ["stateful"], "workers": 1, "max_examples": 3, "seed": 1,
                                    "max_failures": 0, "fault": None, "env_stop": more["stopped"]}})
+            info["attack_schedules"] += 1
+    # (a') stale-read attacks on the consumer's exit decision (see engine_driver.StaleReadAttack)
+    for mode in ("empty-exception", "empty-call"):
+        for desc in ({"ops": ["bad"], "links": False, "phases": ["fuzzing"], "workers": 1},
+                     {"ops": ["bad", "ok"], "links": False, "phases": ["coverage", "fuzzing"], "workers": 2},
+                     {"ops": ["ok"], "links": "bad", "phases": ["stateful"], "workers": 1}):
+            items.append({"attack": mode, "steps": [], "origin": "stale-read:" + mode,
+                          "desc": dict(desc, max_examples=2, seed=1, max_failures=0, fault=None, env_stop=False, params=True)})
             info["attack_schedules"] += 1
     # (b) simulated behaviours of the current design
     for cfg, mf in (("Engine_sim.cfg", 0), ("Engine_sim_mf.cfg", 1)):
